@@ -12,7 +12,7 @@ from ..runner import Corr, Failure
 from .c10 import cxvars
 from .c03 import KINDS, _mk
 
-LEAN_MODULES = ['SvgVerif.Props.C15', 'SvgVerif.Props.C15Singular']
+LEAN_MODULES = ['SvgVerif.Props.C15', 'SvgVerif.Props.C15Singular', 'SvgVerif.Props.C15Laws', 'SvgVerif.Props.C15Arc']
 
 
 def gen_defs(spt, salt=0):
@@ -48,6 +48,38 @@ def gen_defs(spt, salt=0):
                 P.sqrt = saved[0]
             return out
         defs += retry(job, 'c15/%s' % kind + ('/%d' % salt if salt else ''))
+
+    # ---- Arc: unit_tangent / normal / curvature on an arc whose stored parameters are symbols (as in C04) ----------
+    ARGS = ['theta', 'delta', 'rx', 'ry', 'rot', 'pi', 't']
+
+    def arcjob(r):
+        vals, env = realvars(ARGS, r)
+        theta, delta, rx, ry, rot, PI, t = vals
+        arc = P.Arc.__new__(P.Arc)
+        arc.theta, arc.delta, arc.rotation = theta, delta, rot
+        arc.radius = st.Cx(rx, ry)
+        saved = (P.cos, P.sin, P.radians, P.pi, P.sqrt)
+        out = []
+        A = lambda nm, val, doc: out.append(Def('arc_%s' % nm, ARGS, node(val), 'Arc: ' + doc, env))
+        try:
+            P.cos = lambda x: st.fn_approx('cos', x, math.cos)
+            P.sin = lambda x: st.fn_approx('sin', x, math.sin)
+            P.radians = lambda x: x * PI / 180
+            P.pi = PI
+            P.sqrt = st.sqrt_approx
+            d1 = arc.derivative(t)
+            A('dx', d1.real, 'derivative(t).real'); A('dy', d1.imag, 'derivative(t).imag')
+            d2 = arc.derivative(t, 2)
+            A('ddx', d2.real, 'derivative(t, 2).real'); A('ddy', d2.imag, 'derivative(t, 2).imag')
+            T = arc.unit_tangent(t)
+            A('tangent_x', T.real, 'unit_tangent(t).real'); A('tangent_y', T.imag, 'unit_tangent(t).imag')
+            N = arc.normal(t)
+            A('normal_x', N.real, 'normal(t).real'); A('normal_y', N.imag, 'normal(t).imag')
+            A('curvature', arc.curvature(t), 'curvature(t) at a regular point')
+        finally:
+            P.cos, P.sin, P.radians, P.pi, P.sqrt = saved
+        return out
+    defs += retry(arcjob, 'c15/arc' + ('/%d' % salt if salt else ''))
     return defs
 
 
@@ -55,7 +87,7 @@ GEN = {'C15': gen_defs}
 ASSUMPTIONS = [
     'regular points: identities over R on traced definitions with numpy.sqrt / abs as Real.sqrt / |.|; float rounding sampled',
     'known finding F18: where the derivative vanishes, bezier_unit_tangent takes the principal complex square root of lim d^2/|d|^2 and so returns the direction of travel only up to sign (wrong in the open left half-plane)',
-    'arcs (1/r on circles) and the transformation laws (rotation, scaling, reversal) are sampled, not proved',
+    'arcs: tangent / normal / curvature are traced on an arc whose stored parameters are symbols (Props/C15Arc.lean: normalised derivative, modulus 1, 1/r on circles); the transformation laws are theorems on the traced Bezier definitions (Props/C15Laws.lean), for arcs they follow from C04RoundTrip and are sampled',
 ]
 
 
@@ -154,7 +186,7 @@ def sample(ctx, budget=1.0, hint=None, broken=None):
 
     for it in range(int(ctx.n(200, 2500) * budget)):
         kind = r.choice(['line', 'quad', 'cubic', 'cubic', 'arc', 'arc-circle'])
-        scale = r.choice([1.0, 1.0, 1e-2, 1e3])
+        scale = r.choice([1.0, 1.0, 1e-2, 1e3, 1e-9])     # incl. tiny drawings: a regular point whose derivative is small in absolute terms
         if kind in ('arc', 'arc-circle'):
             z0 = complex(r.uniform(-1, 1), r.uniform(-1, 1)) * scale
             z1 = z0 + complex(r.uniform(-1, 1), r.uniform(-1, 1)) * scale
